@@ -385,8 +385,10 @@ func (p *Parser) printStatement() (StatementPrint, error) {
 
 	startToken := *p.previous
 
+	// atStatementEnd consumes a ';', so remember when it has seen the end
 	args := make([]Expr, 0)
-	for !p.atStatementEnd() {
+	ended := p.atStatementEnd()
+	for !ended {
 		expr, err := p.expression()
 		if err != nil {
 			return StatementPrint{}, err
@@ -394,12 +396,13 @@ func (p *Parser) printStatement() (StatementPrint, error) {
 		args = append(args, expr)
 		if p.current.Tag == Comma {
 			p.consume(Comma)
+			ended = p.atStatementEnd()
 		} else {
 			break
 		}
 	}
 
-	if p.atStatementEnd() {
+	if p.atStatementEnd() || ended {
 		p.didEndStatement = true
 	}
 	return StatementPrint{startToken, args}, nil
